@@ -982,18 +982,18 @@ class SmiV2Parser(AbstractParser):
                        | Compliance"""
         n = len(p)
         if n == 3:
-            if p[2]:
+            if p[2] is not None:
                 p[0] = ('Compliances', (p[1] and p[1][1] or []) + [p[2]])
             else:
                 p[0] = p[1]
         elif n == 2:
-            p[0] = p[1] and ('Compliances', [p[1]]) or None
+            if p[1] is not None:
+                p[0] = ('Compliances', [p[1]])
 
     def p_Compliance(self, p):
         """Compliance : ComplianceGroup
                       | ComplianceObject"""
-        if p[1]:
-            p[0] = p[1]
+        p[0] = p[1]
 
     def p_ComplianceGroup(self, p):
         """ComplianceGroup : GROUP objectIdentifier DESCRIPTION Text"""
